@@ -142,6 +142,14 @@ SPECS = [
          kind="gen",
          params=[("self_static_intervals", "LIST"), ("start", "OZ"), ("end", "OZ"), ("reverse", "B")],
          selfattrs={"_static_intervals": ("self_static_intervals", "LIST")}),
+    # ---- core.py: Difference._sweep.  heapq.merge over the subtractor streams is the library model
+    # merge_by lt_fwd (Model/Sweeps.v), accepted only with exactly this source text; the iterator is the
+    # list of the items not yet consumed; the closure advance_subtractor is inlined at its calls.
+    dict(name="g_diff_sweep", file="calgebra/core.py", cls="Difference", func="_sweep", kind="gen", res=True,
+         params=[("source_stream", "LIST"), ("sub_streams", "L:LIST")],
+         locals={"current_subtractor": "OIVL"}, inline=["advance_subtractor"],
+         text_exprs={"heapq.merge(*sub_streams, key=lambda event: (event.finite_start, event.finite_end))":
+                     ("(merge_by lt_fwd sub_streams)", "LIST")}),
 ]
 
 
